@@ -67,7 +67,14 @@ func c15Rule(c *core.Ctx) string {
 	}
 	if len(doms) > 0 && c.Rng.Intn(30) == 0 {
 		// A long domain list (fillers in the polarity that changes nothing).
-		for i, n := 0, 15+c.Rng.Intn(66); i < n; i++ {
+		n := 15 + c.Rng.Intn(66)
+		if c.Rng.Intn(4) == 0 {
+			// (a line longer than the 4 KiB and 8 KiB read buffers, as the
+			// real lists have)
+			n = []int{230, 330, 480}[c.Rng.Intn(3)]
+			c.Event("cosmetic_rules_longer_than_4k", 1)
+		}
+		for i := 0; i < n; i++ {
 			f := fmt.Sprintf("f%d.filler.example", i)
 			if !hasPermitted {
 				f = "~" + f
@@ -313,7 +320,7 @@ func init() {
 	core.Register(&core.Prop{
 		ID:    "C15",
 		Level: "exploration",
-		Rule: "exhaustive part: every single rule and every pair (thorough: also every triple) of a 58-shape catalogue (one selector; every domain value as rule, negated rule and exception; permitted+restricted combinations) x 29 hostnames x 8 flag combinations; sampled part: per case a list of 1..10 element-hiding rules and exceptions (generic, one or many domains, negated domains, wildcard TLD, a domain both permitted and restricted, duplicated selectors) x 29 hostnames (listed domain, subdomain, deeper subdomain, sibling, label-boundary neighbour, unrelated) x all 8 flag combinations, through CosmeticEngine.Match and Engine.GetCosmeticResult; " +
+		Rule: "(sampled lists: one long domain list in four has 230 / 330 / 480 entries, a line longer than the 4 KiB and 8 KiB read buffers) exhaustive part: every single rule and every pair (thorough: also every triple) of a 58-shape catalogue (one selector; every domain value as rule, negated rule and exception; permitted+restricted combinations) x 29 hostnames x 8 flag combinations; sampled part: per case a list of 1..10 element-hiding rules and exceptions (generic, one or many domains, negated domains, wildcard TLD, a domain both permitted and restricted, duplicated selectors) x 29 hostnames (listed domain, subdomain, deeper subdomain, sibling, label-boundary neighbour, unrelated) x all 8 flag combinations, through CosmeticEngine.Match and Engine.GetCosmeticResult; " +
 			"oracle = the reference of the statement computed with CosmeticRule.Match over all rules, compared per bucket as sets; non-trivial = (list, hostname) with at least one expected selector; distinct by (hostname, list)",
 		Assumptions: []string{
 			"CosmeticRule.Match is the definition of 'applies to the hostname' (its domain semantics are checked by C04 through the shared helper)",
